@@ -210,6 +210,16 @@ fn main() {
                         got.dedup();
                         let mut exp: Vec<String> = t.vis.clone();
                         exp.sort();
+                        // module accessors in scope: the imported module under its own name, or under its alias only
+                        let mut got_mods: Vec<String> = items.iter().filter(|i| matches!(i.kind, ide::CompletionItemKind::Module)).map(|i| i.label.to_string()).collect();
+                        got_mods.sort();
+                        let mut exp_mods: Vec<String> = case["mods"].as_array().map(|a| a.iter().map(|x| x.as_str().unwrap().to_string()).collect()).unwrap_or_default();
+                        exp_mods.sort();
+                        if got_mods != exp_mods {
+                            local.push(json!({"kind": "mismatch", "prop": "C18",
+                                "features": {"what": "module accessors", "imp": case["imp"], "missing": exp_mods.iter().filter(|e| !got_mods.contains(e)).collect::<Vec<_>>(), "extra": got_mods.iter().filter(|g| !exp_mods.contains(g)).collect::<Vec<_>>()},
+                                "detail": {"case": case, "text": prog.text, "token": {"idx": t.idx, "text": t.t, "offset": t.end}, "expected": exp_mods, "got": got_mods}}));
+                        }
                         let bad_range = items.iter().any(|i| usize::from(i.source_range.start()) != t.start || usize::from(i.source_range.end()) != t.end);
                         if got != exp || dup || bad_range {
                             local.push(json!({"kind": "mismatch", "prop": "C18",
